@@ -101,6 +101,7 @@ type Explorer struct {
 	Samples  []Sample
 	PassModels []Sample // models of passing paths for native validation
 	TimedOut bool
+	workers  []*Worker
 	cacheHits atomic.Int64
 }
 
@@ -127,6 +128,7 @@ type Worker struct {
 	local *[][]int16
 	memo  map[string]Value
 	tag   string
+	busy  bool
 	lastClockSec, lastClockNsec *Term
 	clockReads [][2]*Term
 }
@@ -697,6 +699,13 @@ func (ex *Explorer) Run() error {
 				case <-t.C:
 					ex.mu.Lock()
 					fmt.Fprintf(os.Stderr, "progress %s: paths=%d queue=%d active=%d findings=%d\n", cfg.Harness, ex.Stats.Paths, len(ex.work), ex.active, len(ex.Findings))
+					if ex.active <= 6 {
+						for _, w := range ex.workers {
+							if w != nil && w.busy && len(w.notes) > 0 {
+								fmt.Fprintf(os.Stderr, "   busy: %s steps=%d in %s\n", w.notes[0], w.ip.Steps, w.ip.curFnName())
+							}
+						}
+					}
 					ex.mu.Unlock()
 				}
 			}
@@ -717,12 +726,17 @@ func (ex *Explorer) Run() error {
 				return
 			}
 			defer w.solver.Close()
+			ex.mu.Lock()
+			ex.workers = append(ex.workers, w)
+			ex.mu.Unlock()
 			for {
 				p, ok := ex.pop()
 				if !ok {
 					break
 				}
+				w.busy = true
 				w.runPath(p)
+				w.busy = false
 				ex.done()
 				if !cfg.Deadline.IsZero() && time.Now().After(cfg.Deadline) || (cfg.MaxPaths > 0 && ex.Stats.Paths >= cfg.MaxPaths) {
 					ex.mu.Lock()
